@@ -89,6 +89,19 @@ def gen(rng, i, tier):
     const = rng.random() < 0.12
     cv = val()
     tab = {"vi": vis, "io": ios, z: [[cv if const else val() for _ in ios] for _ in vis]}
+    if z != "eff" and not const and rng.random() < 0.25:
+        # exact-zero entries are legal for voltage drops and ground currents: single cells, a whole row, a whole column
+        how = rng.choice(["cell", "cells", "row", "column"])
+        rows_, cols_ = len(tab[z]), len(tab[z][0])
+        if how == "row":
+            tab[z][rng.randrange(rows_)] = [0.0] * cols_
+        elif how == "column":
+            j = rng.randrange(cols_)
+            for row in tab[z]:
+                row[j] = 0.0
+        else:
+            for _ in range(1 if how == "cell" else 3):
+                tab[z][rng.randrange(rows_)][rng.randrange(cols_)] = 0.0
     # axis presentation variants: the vi axis written with negative values (tables for negative rails) and /
     # or in descending order - the sign of the coordinates is ignored and rows carry their own vi value
     form = rng.choice(["plain", "plain", "neg_vi", "desc_vi", "neg_desc_vi", "shuffled_vi", "neg_shuffled_vi"])
